@@ -407,6 +407,54 @@ def r7(ctx: Context) -> None:
     ctx.floor("R7", "argument serialisation sites", n, 3)
 
 
+_LOSSY = {"normalize", "lower", "upper", "casefold", "strip", "lstrip", "rstrip", "title", "capitalize", "swapcase", "expandtabs", "round"}
+
+
+def r8(ctx: Context) -> None:
+    """Three shapes of 'the value that arrives is not the value that was passed'."""
+    from ..flow import MUTATING_METHODS, build_cfg, cfg_node_of, parent_map, reaching_definitions
+    from . import c16
+
+    ctx.rule("R8", "values pass unchanged and unshared: (a) no lossy transform (unicode normalisation, case folding, stripping, rounding) of a value anywhere in the serializer / arguments / call / client-data-store modules; (b) in the functions that build one Arguments per element of a batch, a dictionary that is updated inside the element loop is created inside that loop (no state carried from one element to the next); (c) no client data store operation swallows a storage error (an externalised value must be stored or the call must fail: falling back to the inline form gives one call two identities) - shared with C16/R11")
+    repo = ctx.repo
+    n_a = 0
+    for f in repo.all_functions():
+        mod = f.module.name
+        if not (mod.startswith("pynenc.serializer") or mod.startswith("pynenc.client_data_store") or mod in ("pynenc.arguments", "pynenc.call")):
+            continue
+        n_a += 1
+        bad = [c for c in calls_in(f.node) if call_name(c) in _LOSSY and (isinstance(c.func, ast.Attribute) or call_name(c) == "round")]
+        # `.strip()` & co on things that are not the user's value (module / class names, markers) are fine: only calls whose
+        # receiver / argument is derived from the function's value parameters count
+        vals = set(f.params[1:] if f.cls is not None else f.params)
+        bad = [c for c in bad if any(isinstance(x, ast.Name) and x.id in vals for x in ast.walk(c))]
+        ctx.add("R8", f"{f.qualname}::no-lossy-transform-of-the-value", not bad, f.loc(bad[0]) if bad else f.loc(), "" if not bad else f"`{ast.unparse(bad[0])[:60]}` changes the value on its way into the stored form: two different arguments get one serialised text (one call identity) and the worker receives a string / number the caller did not pass")
+    ctx.floor("R8", "functions on the serialisation path", n_a, 40)
+    # (b) per-element dictionaries
+    n_b = 0
+    for f in repo.all_functions():
+        if f.module.name != "pynenc.task":
+            continue
+        for lp in [n for n in walk_no_nested(f.node) if isinstance(n, ast.For)]:
+            muts = [c for c in calls_in(lp) if isinstance(c.func, ast.Attribute) and c.func.attr in ("update", "setdefault", "pop", "clear") and isinstance(c.func.value, ast.Name)]
+            muts += [t for st in ast.walk(lp) if isinstance(st, ast.Assign) for t in st.targets if isinstance(t, ast.Subscript) and isinstance(t.value, ast.Name)]
+            for m_ in muts:
+                nm = m_.func.value.id if isinstance(m_, ast.Call) else m_.value.id
+                n_b += 1
+                inside = any(isinstance(st, ast.Assign) and any(isinstance(t, ast.Name) and t.id == nm for t in st.targets) for st in ast.walk(lp))
+                # defined before the loop and used per element (passed on / spread into a call) -> carried state
+                used = any(isinstance(x, ast.keyword) and x.arg is None and isinstance(x.value, ast.Name) and x.value.id == nm for x in ast.walk(lp)) or any(isinstance(x, ast.Call) and any(isinstance(a, ast.Name) and a.id == nm for a in x.args) for x in ast.walk(lp))
+                ok = inside or not used
+                ctx.add("R8", f"{f.qualname}::per-element-dict-is-fresh::{nm}", ok, f.loc(m_), "" if ok else f"`{nm}` is created before the loop and updated for every element: a key spelled by one element (an optional parameter, an override of a common argument) is inherited by every later element that omits it - their stored arguments, identity and execution differ from the direct call")
+    ctx.floor("R8", "dictionaries updated inside element loops of pynenc.task", n_b, 1)
+    # (c)
+    sub = Context("C16", repo, ctx.tier, ctx.seed)
+    sub._resolver = ctx._resolver
+    c16.r11(sub, lambda c: "ClientDataStore" in c.name)
+    for i in sub.instances:
+        ctx.add("R8", i.key.split("/", 2)[2], i.ok, i.where, i.detail)
+
+
 def run(ctx: Context) -> None:
     sites = sqlmini.sites(ctx.repo)
     r1(ctx)
@@ -416,6 +464,7 @@ def run(ctx: Context) -> None:
     r6(ctx)
     r6b(ctx)
     r7(ctx)
+    r8(ctx)
     ctx.exhaustive = True
     ctx.not_decided += [
         "value round-trip for each serializer (quantifies over values; pickle / jsonpickle are third-party)",
